@@ -554,6 +554,75 @@ pub fn run(tier: Tier) -> i32 {
         }
     });
 
+    // the rejected line stands somewhere else than at the top level of the source text: in the
+    // body of a called macro (also as the second call, after a harmless first one), in the
+    // selected arm of a conditional, behind data / RAM / EEPROM segments, in an included file;
+    // and the offending number reaches the line as a macro argument
+    let n_surrounded = AtomicU64::new(0);
+    let scratch = crate::report::Scratch::new("c04");
+    let n_file = AtomicU64::new(0);
+    full.par_iter().filter(|c| !c.uses_alias).for_each(|c| {
+        if isa::encode(Core::Full, c.ic.mnem, &c.ic.ops).is_some() || sibling(Core::Full, &c.ic).is_some() {
+            return;
+        }
+        let mut h = 0u64;
+        for b in c.text.bytes() {
+            h = h.wrapping_mul(131).wrapping_add(b as u64);
+        }
+        if c.cat == "numeric" && h % 5 != 0 {
+            return;
+        }
+        let mut programs: Vec<(&str, String, Option<String>)> = vec![
+            ("macro-body", format!(".macro ctx_m\nnop\n{}\n.endm\nnop\nctx_m\n", c.text), None),
+            ("macro-body-second-call", format!(".macro ctx_m\n.if @0\n{}\n.else\nnop\n.endif\n.endm\nctx_m 0\nctx_m 1\n", c.text), None),
+            ("selected-arm", format!(".equ ctx_one = 1\n.if ctx_one\n{}\n.else\nnop\n.endif\n", c.text), None),
+            ("elif-arm", format!(".if 0\nnop\n.elif 1\nnop\n{}\n.endif\nnop\n", c.text), None),
+            ("behind-other-segments", format!("nop\n.dseg\nctx_v: .byte 2\n.eseg\n.db 1\n.cseg\n{}\n", c.text), None),
+        ];
+        if let Some(Opnd::Imm(k)) = c.ic.ops.get(c.pos) {
+            if c.cat == "numeric" && *k != i64::MIN {
+                let mut parts: Vec<String> = c.ic.ops.iter().map(|o| o.text()).collect();
+                // (the argument is the operand as written: `pc+65` for a relative target)
+                let arg = if icase::is_relative(c.ic.mnem) { { let t = *k as i128 + 1; if t >= 0 { format!("pc+{}", t) } else { format!("pc-{}", -t) } } } else { format!("{}", k) };
+                parts[c.pos] = "@0".to_string();
+                programs.push(("macro-argument", format!(".macro ctx_m\n{} {}\n.endm\nctx_m {}\n", c.ic.mnem, parts.join(", "), arg), None));
+                parts[c.pos] = "@1".to_string();
+                programs.push(("second-macro-argument-of-second-call", format!(".macro ctx_m\nnop\n.if @0\n{} {}\n.endif\n.endm\nctx_m 0, 0\nctx_m 1, {}\n", c.ic.mnem, parts.join(", "), arg), None));
+            }
+        }
+        if h % 8 == 0 {
+            programs.push(("included-file", ".include \"ctx_part.inc\"\nnop\n".to_string(), Some(format!("nop\n{}\n", c.text))));
+        }
+        for (how, src, part) in programs.iter() {
+            let o = match part {
+                None => sut::build_str(src),
+                Some(t) => {
+                    let d = scratch.path.join(format!("t{}", n_file.fetch_add(1, Ordering::Relaxed)));
+                    std::fs::create_dir_all(&d).unwrap_or_else(|e| machinery_fail(&format!("C04 scratch: {}", e)));
+                    std::fs::write(d.join("ctx_part.inc"), t).unwrap_or_else(|e| machinery_fail(&format!("C04 scratch: {}", e)));
+                    std::fs::write(d.join("main.asm"), src).unwrap_or_else(|e| machinery_fail(&format!("C04 scratch: {}", e)));
+                    let o = sut::build_file(d.join("main.asm"), BTreeSet::new());
+                    let _ = std::fs::remove_dir_all(&d);
+                    o
+                }
+            };
+            cx.evals.fetch_add(1, Ordering::Relaxed);
+            n_surrounded.fetch_add(1, Ordering::Relaxed);
+            if let Outcome::Ok(b) = &o {
+                cx.rep.violation(
+                    &format!("C04/accepted-in-a-surrounding/mnem={}/cat={}/where={}", c.ic.mnem, c.cat, how),
+                    || format!("`{}` cannot be encoded by the ISA, but placed `{}` the program assembles to {}", c.text, how, sut::hex_trunc(&b.code, 24)),
+                    || match part {
+                        None => json!({"kind": "build_str", "source": src, "expected": {"result": "err (any text)"}, "observed": o.to_json()}),
+                        Some(t) => json!({"kind": "file_tree", "files": {"main.asm": src, "ctx_part.inc": t}, "main": "main.asm", "pasted_program": format!("{}nop\n", t), "expected": {"result": "err (any text)"}, "observed": o.to_json()}),
+                    },
+                );
+            }
+        }
+    });
+    drop(scratch);
+    rep.guard(n_surrounded.load(Ordering::Relaxed) > 20_000, "fewer than 20k must-reject lines were placed in surroundings");
+
     let mnems: BTreeSet<&str> = full.iter().map(|c| c.ic.mnem).collect();
     rep.guard(mnems.len() >= 110, "fewer than 110 mnemonics enumerated");
     rep.guard(must_reject_full > 20_000, "fewer than 20k must-reject cases");
@@ -573,7 +642,7 @@ pub fn run(tier: Tier) -> i32 {
     let coverage = cov(json!({
         "evaluations": cx.evals.load(Ordering::Relaxed),
         "distinct_nontrivial": must_reject_full,
-        "rule": "per mnemonic: a few legal base tuples; each register position x r0..r31 (+ .def alias); each numeric field x a window beyond both ends of its legal range + extremes up to +-(2^63-1); each position x each operand kind (register, 9 pointer forms, displacement forms, number); operand counts 0..3; run one per build on no device, ATtiny20 (reduced core) and ATtiny11; relative jumps/branches also on ATmega8, ATtiny13, ATtiny45; every must-reject line (numeric windows thinned to every 7th value) also followed by each of four other segments (.org+code, .eseg data, .dseg+.cseg, .cseg+.org+data). distinct_nontrivial = distinct source lines (no device) that the reference says must be rejected; evaluations counts all builds",
+        "rule": "per mnemonic: a few legal base tuples; each register position x r0..r31 (+ .def alias); each numeric field x a window beyond both ends of its legal range + extremes up to +-(2^63-1); each position x each operand kind (register, 9 pointer forms, displacement forms, number); operand counts 0..3; run one per build on no device, ATtiny20 (reduced core) and ATtiny11; relative jumps/branches also on ATmega8, ATtiny13, ATtiny45; every must-reject line (numeric windows thinned to every 7th value) also followed by each of four other segments (.org+code, .eseg data, .dseg+.cseg, .cseg+.org+data), and (numeric windows thinned to every 5th value) in the body of a called macro, of its second call, in a selected .if / .elif arm, behind other segments, with the number as a macro argument, and (every 8th) in an included file. distinct_nontrivial = distinct source lines (no device) that the reference says must be rejected; evaluations counts all builds",
         "exhaustive": true,
         "distinct_cases_full_core": distinct_full,
         "cases_reduced_core_specific": reduced.len(),
@@ -583,6 +652,7 @@ pub fn run(tier: Tier) -> i32 {
         "must_reject_values_through_symbols_programs": n_via_symbols.load(Ordering::Relaxed),
         "relative_targets_from_a_captured_position_programs": n_captured_pc.load(Ordering::Relaxed),
         "must_reject_lines_followed_by_another_segment": n_followed.load(Ordering::Relaxed),
+        "must_reject_lines_in_surroundings_programs": n_surrounded.load(Ordering::Relaxed),
         "lenient_sibling_form_accepted": cx.lenient_used.load(Ordering::Relaxed),
         "caps_hit": [],
         "trusted_base": ["harness isa::encode (self-checked against isa::decode over 2^16 opcodes)"],
